@@ -1,7 +1,45 @@
-//! Rendering of the document AST to SCXML text (canonical form; lexical variation is added by
-//! the C04 check through `RenderOpts`).
+//! Rendering of the document AST to SCXML text: AST -> generic element tree -> text.
+//! `Lexical::canonical()` gives a fixed plain form; `Lexical::from_tape` adds the lexical
+//! variation used by C04 (whitespace, comments, quoting, attribute order, character/entity
+//! references, namespace prefix, empty-element form, initial attribute vs. element, descriptor
+//! spelling, XInclude of text fragments).
 
 use crate::doc::*;
+use crate::tape::Tape;
+
+#[derive(Clone, Debug)]
+pub enum Node {
+    El(El),
+    /// text content, given unescaped
+    Text(String),
+}
+
+#[derive(Clone, Debug)]
+pub struct El {
+    pub name: String,
+    pub attrs: Vec<(String, String)>,
+    pub children: Vec<Node>,
+}
+
+impl El {
+    fn new(name: &str) -> El {
+        El { name: name.to_string(), attrs: vec![], children: vec![] }
+    }
+    fn attr(mut self, k: &str, v: &str) -> El {
+        self.attrs.push((k.to_string(), v.to_string()));
+        self
+    }
+    fn opt(mut self, k: &str, v: &Option<String>) -> El {
+        if let Some(v) = v {
+            self.attrs.push((k.to_string(), v.clone()));
+        }
+        self
+    }
+    fn child(mut self, e: El) -> El {
+        self.children.push(Node::El(e));
+        self
+    }
+}
 
 pub fn xml_escape_attr(s: &str) -> String {
     let mut o = String::new();
@@ -32,7 +70,7 @@ pub fn expr_src(x: &X, dm: DM) -> String {
             X::In(s) => return format!("In({})", q(s)),
             X::EventName => return "_event.name".to_string(),
             X::IntArr(a) => return format!("[{}]", a.iter().map(|i| i.to_string()).collect::<Vec<_>>().join(",")),
-            X::Bad(s) => return s.clone(),
+            X::Bad(s) | X::Raw(s) => return s.clone(),
             X::Not(a) => return format!("!({})", go(a, dm, true)),
             X::And(a, b) => format!("{} {} {}", go(a, dm, false), if dm == DM::Ecma { "&&" } else { "&" }, go(b, dm, false)),
             X::Or(a, b) => format!("{} {} {}", go(a, dm, false), if dm == DM::Ecma { "||" } else { "|" }, go(b, dm, false)),
@@ -49,175 +87,527 @@ pub fn expr_src(x: &X, dm: DM) -> String {
     go(x, dm, true)
 }
 
-pub struct Out {
-    pub s: String,
-    pub dm: DM,
+/// Choices that change the element tree but not the meaning.
+#[derive(Clone, Debug, Default)]
+pub struct Structural {
+    /// per compound state with Initial::Attr: render as <initial> element instead (and vice versa for empty Elem)
+    pub flip_initial: Vec<bool>,
+    /// per descriptor occurrence: 0 = as written, 1 = add '.', 2 = add '.*'
+    pub descriptor_spelling: Vec<u8>,
 }
 
-impl Out {
-    fn line(&mut self, ind: usize, text: &str) {
-        for _ in 0..ind {
-            self.s.push_str("  ");
+struct Build<'a> {
+    dm: DM,
+    st: &'a Structural,
+    n_initial: usize,
+    n_desc: usize,
+}
+
+impl<'a> Build<'a> {
+    fn x(&self, x: &X) -> String {
+        expr_src(x, self.dm)
+    }
+
+    fn params(&self, mut e: El, params: &[ParamSpec]) -> El {
+        for p in params {
+            e = e.child(El::new("param").attr("name", &p.name).opt("expr", &p.expr).opt("location", &p.location));
         }
-        self.s.push_str(text);
-        self.s.push('\n');
+        e
     }
-    fn attr(&self, x: &X) -> String {
-        xml_escape_attr(&expr_src(x, self.dm))
-    }
-}
 
-pub fn render_content(o: &mut Out, ind: usize, c: &C) {
-    match c {
-        C::Mark { tag, args } => {
-            let mut a = vec![format!("'{}'", tag)];
-            for x in args {
-                a.push(expr_src(x, o.dm));
+    fn content_spec(&self, mut e: El, c: &Option<ContentSpec>) -> El {
+        match c {
+            None => {}
+            Some(ContentSpec::Expr(x)) => e = e.child(El::new("content").attr("expr", x)),
+            Some(ContentSpec::Text(t)) => {
+                let mut c = El::new("content");
+                c.children.push(Node::Text(t.clone()));
+                e = e.child(c);
             }
-            // script text is taken as a raw span by the reader: no markup-significant characters in it
-            o.line(ind, &format!("<script>mark({})</script>", a.join(", ")));
+            Some(ContentSpec::Empty) => e = e.child(El::new("content")),
         }
-        C::Raise(e) => o.line(ind, &format!("<raise event=\"{}\"/>", e)),
-        C::SendInternal(e) => o.line(ind, &format!("<send event=\"{}\" target=\"#_internal\"/>", e)),
-        C::SendSelf(e) => o.line(ind, &format!("<send event=\"{}\"/>", e)),
-        C::Assign { var, expr } => o.line(ind, &format!("<assign location=\"{}\" expr=\"{}\"/>", var, o.attr(expr))),
-        C::If { branches, els } => {
-            for (i, (cond, body)) in branches.iter().enumerate() {
-                if i == 0 {
-                    o.line(ind, &format!("<if cond=\"{}\">", o.attr(cond)));
-                } else {
-                    o.line(ind, &format!("<elseif cond=\"{}\"/>", o.attr(cond)));
+        e
+    }
+
+    fn content(&mut self, out: &mut Vec<Node>, c: &C) {
+        match c {
+            C::Mark { tag, args } => {
+                let mut a = vec![format!("'{}'", tag)];
+                for x in args {
+                    a.push(self.x(x));
                 }
+                let mut e = El::new("script");
+                e.children.push(Node::Text(format!("mark({})", a.join(", "))));
+                out.push(Node::El(e));
+            }
+            C::Raise(e) => out.push(Node::El(El::new("raise").attr("event", e))),
+            C::SendInternal(e) => out.push(Node::El(El::new("send").attr("event", e).attr("target", "#_internal"))),
+            C::SendSelf(e) => out.push(Node::El(El::new("send").attr("event", e))),
+            C::Assign { var, expr } => out.push(Node::El(El::new("assign").attr("location", var).attr("expr", &self.x(expr)))),
+            C::AssignText { location, text } => {
+                let mut e = El::new("assign").attr("location", location);
+                e.children.push(Node::Text(text.clone()));
+                out.push(Node::El(e));
+            }
+            C::If { branches, els } => {
+                let mut e = El::new("if");
+                for (i, (cond, body)) in branches.iter().enumerate() {
+                    if i == 0 {
+                        e.attrs.push(("cond".into(), self.x(cond)));
+                    } else {
+                        e.children.push(Node::El(El::new("elseif").attr("cond", &self.x(cond))));
+                    }
+                    for b in body {
+                        self.content(&mut e.children, b);
+                    }
+                }
+                if let Some(b) = els {
+                    e.children.push(Node::El(El::new("else")));
+                    for x in b {
+                        self.content(&mut e.children, x);
+                    }
+                }
+                out.push(Node::El(e));
+            }
+            C::ForEach { array, item, index, body } => {
+                let mut e = El::new("foreach").attr("array", &self.x(array)).attr("item", item).opt("index", index);
                 for b in body {
-                    render_content(o, ind + 1, b);
+                    self.content(&mut e.children, b);
                 }
+                out.push(Node::El(e));
             }
-            if let Some(e) = els {
-                o.line(ind, "<else/>");
-                for b in e {
-                    render_content(o, ind + 1, b);
+            C::Log(x) => out.push(Node::El(El::new("log").attr("expr", &self.x(x)))),
+            C::LogLabel { label, expr } => out.push(Node::El(El::new("log").attr("label", label).attr("expr", &self.x(expr)))),
+            C::Script(x) => {
+                let mut e = El::new("script");
+                e.children.push(Node::Text(self.x(x)));
+                out.push(Node::El(e));
+            }
+            C::Cancel { sendid, sendidexpr } => out.push(Node::El(El::new("cancel").opt("sendid", sendid).opt("sendidexpr", sendidexpr))),
+            C::Send(s) => {
+                let mut e = El::new("send")
+                    .opt("event", &s.event)
+                    .opt("eventexpr", &s.eventexpr)
+                    .opt("target", &s.target)
+                    .opt("targetexpr", &s.targetexpr)
+                    .opt("type", &s.typ)
+                    .opt("typeexpr", &s.typeexpr)
+                    .opt("id", &s.id)
+                    .opt("idlocation", &s.idlocation)
+                    .opt("delay", &s.delay)
+                    .opt("delayexpr", &s.delayexpr);
+                if !s.namelist.is_empty() {
+                    e = e.attr("namelist", &s.namelist.join(" "));
                 }
+                e = self.params(e, &s.params);
+                e = self.content_spec(e, &s.content);
+                out.push(Node::El(e));
             }
-            o.line(ind, "</if>");
         }
-        C::ForEach { array, item, index, body } => {
-            let idx = index.as_ref().map(|i| format!(" index=\"{}\"", i)).unwrap_or_default();
-            o.line(ind, &format!("<foreach array=\"{}\" item=\"{}\"{}>", o.attr(array), item, idx));
-            for b in body {
-                render_content(o, ind + 1, b);
+    }
+
+    fn block(&mut self, name: &str, b: &[C]) -> El {
+        let mut e = El::new(name);
+        for c in b {
+            self.content(&mut e.children, c);
+        }
+        e
+    }
+
+    fn data(&mut self, data: &[DataDecl]) -> Option<El> {
+        if data.is_empty() {
+            return None;
+        }
+        let mut dmel = El::new("datamodel");
+        for d in data {
+            let mut e = El::new("data").attr("id", &d.id);
+            match &d.expr {
+                Some(X::Raw(t)) if t.starts_with("TEXT:") => e.children.push(Node::Text(t[5..].to_string())),
+                Some(x) => e = e.attr("expr", &self.x(x)),
+                None => {}
             }
-            o.line(ind, "</foreach>");
+            dmel = dmel.child(e);
         }
-        C::Log(x) => o.line(ind, &format!("<log expr=\"{}\"/>", o.attr(x))),
-        C::Script(x) => o.line(ind, &format!("<script>{}</script>", expr_src(x, o.dm))),
+        Some(dmel)
     }
-}
 
-fn render_data(o: &mut Out, ind: usize, data: &[DataDecl]) {
-    if data.is_empty() {
-        return;
-    }
-    o.line(ind, "<datamodel>");
-    for d in data {
-        match &d.expr {
-            Some(x) => o.line(ind + 1, &format!("<data id=\"{}\" expr=\"{}\"/>", d.id, o.attr(x))),
-            None => o.line(ind + 1, &format!("<data id=\"{}\"/>", d.id)),
+    fn descriptor(&mut self, d: &str) -> String {
+        let k = self.st.descriptor_spelling.get(self.n_desc).cloned().unwrap_or(0);
+        self.n_desc += 1;
+        if d == "*" || d.ends_with('.') || d.ends_with(".*") {
+            return d.to_string();
+        }
+        match k {
+            1 => format!("{}.", d),
+            2 => format!("{}.*", d),
+            _ => d.to_string(),
         }
     }
-    o.line(ind, "</datamodel>");
-}
 
-fn render_transition(o: &mut Out, ind: usize, t: &Trans) {
-    let mut a = String::new();
-    if !t.events.is_empty() {
-        a.push_str(&format!(" event=\"{}\"", t.events.join(" ")));
-    }
-    if let Some(c) = &t.cond {
-        a.push_str(&format!(" cond=\"{}\"", o.attr(c)));
-    }
-    if !t.targets.is_empty() {
-        a.push_str(&format!(" target=\"{}\"", t.targets.join(" ")));
-    }
-    if t.internal {
-        a.push_str(" type=\"internal\"");
-    }
-    if t.content.is_empty() {
-        o.line(ind, &format!("<transition{}/>", a));
-    } else {
-        o.line(ind, &format!("<transition{}>", a));
+    fn transition(&mut self, t: &Trans) -> El {
+        let mut e = El::new("transition");
+        if !t.events.is_empty() {
+            let ev: Vec<String> = t.events.iter().map(|d| self.descriptor(d)).collect();
+            e = e.attr("event", &ev.join(" "));
+        }
+        if let Some(c) = &t.cond {
+            e = e.attr("cond", &self.x(c));
+        }
+        if !t.targets.is_empty() {
+            e = e.attr("target", &t.targets.join(" "));
+        }
+        if t.internal {
+            e = e.attr("type", "internal");
+        }
         for c in &t.content {
-            render_content(o, ind + 1, c);
+            self.content(&mut e.children, c);
         }
-        o.line(ind, "</transition>");
+        e
+    }
+
+    fn state(&mut self, s: &State) -> El {
+        let (tag, ty) = match &s.kind {
+            Kind::State => ("state", None),
+            Kind::Parallel => ("parallel", None),
+            Kind::Final => ("final", None),
+            Kind::History { deep } => ("history", Some(if *deep { "deep" } else { "shallow" })),
+        };
+        let mut e = El::new(tag).attr("id", &s.id);
+        if let Some(t) = ty {
+            e = e.attr("type", t);
+        }
+        // initial: attribute or element
+        let flip = if matches!(s.initial, Initial::Default) {
+            false
+        } else {
+            let f = self.st.flip_initial.get(self.n_initial).cloned().unwrap_or(false);
+            self.n_initial += 1;
+            f
+        };
+        let mut initial_el: Option<El> = None;
+        match &s.initial {
+            Initial::Default => {}
+            Initial::Attr(t) => {
+                if flip {
+                    initial_el = Some(El::new("initial").child(El::new("transition").attr("target", &t.join(" "))));
+                } else {
+                    e = e.attr("initial", &t.join(" "));
+                }
+            }
+            Initial::Elem(t, c) => {
+                if flip && c.is_empty() {
+                    e = e.attr("initial", &t.join(" "));
+                } else {
+                    let mut tr = El::new("transition").attr("target", &t.join(" "));
+                    for x in c {
+                        self.content(&mut tr.children, x);
+                    }
+                    initial_el = Some(El::new("initial").child(tr));
+                }
+            }
+        }
+        if let Some(d) = self.data(&s.data) {
+            e = e.child(d);
+        }
+        if let Some(i) = initial_el {
+            e = e.child(i);
+        }
+        for b in &s.onentry {
+            let x = self.block("onentry", b);
+            e = e.child(x);
+        }
+        for b in &s.onexit {
+            let x = self.block("onexit", b);
+            e = e.child(x);
+        }
+        for t in &s.transitions {
+            let x = self.transition(t);
+            e = e.child(x);
+        }
+        for inv in &s.invokes {
+            let mut i = El::new("invoke")
+                .opt("type", &inv.typ)
+                .opt("typeexpr", &inv.typeexpr)
+                .opt("src", &inv.src)
+                .opt("srcexpr", &inv.srcexpr)
+                .opt("id", &inv.id)
+                .opt("idlocation", &inv.idlocation);
+            if !inv.namelist.is_empty() {
+                i = i.attr("namelist", &inv.namelist.join(" "));
+            }
+            if let Some(a) = inv.autoforward {
+                i = i.attr("autoforward", if a { "true" } else { "false" });
+            }
+            i = self.params(i, &inv.params);
+            i = self.content_spec(i, &inv.content);
+            if let Some(f) = &inv.finalize {
+                let x = self.block("finalize", f);
+                i = i.child(x);
+            }
+            e = e.child(i);
+        }
+        if let Some(dd) = &s.donedata {
+            let mut d = El::new("donedata");
+            if let Some(c) = &dd.content {
+                match c {
+                    X::Raw(t) if t.starts_with("TEXT:") => {
+                        let mut ce = El::new("content");
+                        ce.children.push(Node::Text(t[5..].to_string()));
+                        d = d.child(ce);
+                    }
+                    c => d = d.child(El::new("content").attr("expr", &self.x(c))),
+                }
+            }
+            for (n, x) in &dd.params {
+                d = d.child(El::new("param").attr("name", n).attr("expr", &self.x(x)));
+            }
+            e = e.child(d);
+        }
+        for c in &s.children {
+            let x = self.state(c);
+            e = e.child(x);
+        }
+        e
     }
 }
 
-fn render_state(o: &mut Out, ind: usize, s: &State) {
-    let (tag, extra) = match &s.kind {
-        Kind::State => ("state", String::new()),
-        Kind::Parallel => ("parallel", String::new()),
-        Kind::Final => ("final", String::new()),
-        Kind::History { deep } => ("history", format!(" type=\"{}\"", if *deep { "deep" } else { "shallow" })),
-    };
-    let mut a = format!(" id=\"{}\"{}", s.id, extra);
-    if let Initial::Attr(t) = &s.initial {
-        a.push_str(&format!(" initial=\"{}\"", t.join(" ")));
-    }
-    o.line(ind, &format!("<{}{}>", tag, a));
-    render_data(o, ind + 1, &s.data);
-    if let Initial::Elem(t, content) = &s.initial {
-        o.line(ind + 1, "<initial>");
-        let tr = Trans { events: vec![], cond: None, targets: t.clone(), internal: false, content: content.clone() };
-        render_transition(o, ind + 2, &tr);
-        o.line(ind + 1, "</initial>");
-    }
-    for b in &s.onentry {
-        o.line(ind + 1, "<onentry>");
-        for c in b {
-            render_content(o, ind + 2, c);
-        }
-        o.line(ind + 1, "</onentry>");
-    }
-    for b in &s.onexit {
-        o.line(ind + 1, "<onexit>");
-        for c in b {
-            render_content(o, ind + 2, c);
-        }
-        o.line(ind + 1, "</onexit>");
-    }
-    for t in &s.transitions {
-        render_transition(o, ind + 1, t);
-    }
-    if let Some(dd) = &s.donedata {
-        o.line(ind + 1, "<donedata>");
-        if let Some(c) = &dd.content {
-            o.line(ind + 2, &format!("<content expr=\"{}\"/>", o.attr(c)));
-        }
-        for (n, x) in &dd.params {
-            o.line(ind + 2, &format!("<param name=\"{}\" expr=\"{}\"/>", n, o.attr(x)));
-        }
-        o.line(ind + 1, "</donedata>");
-    }
-    for c in &s.children {
-        render_state(o, ind + 1, c);
-    }
-    o.line(ind, &format!("</{}>", tag));
-}
-
-pub fn render_doc(doc: &Doc) -> String {
-    let mut o = Out { s: String::new(), dm: doc.dm };
-    let mut a = format!(" xmlns=\"http://www.w3.org/2005/07/scxml\" version=\"1.0\" name=\"{}\" datamodel=\"{}\"", doc.name, doc.dm.name());
+pub fn doc_to_tree(doc: &Doc, st: &Structural, script: &Option<String>) -> El {
+    let mut b = Build { dm: doc.dm, st, n_initial: 0, n_desc: 0 };
+    let mut root = El::new("scxml").attr("xmlns", "http://www.w3.org/2005/07/scxml").attr("version", "1.0").attr("name", &doc.name).attr("datamodel", doc.dm.name());
     if doc.late_binding {
-        a.push_str(" binding=\"late\"");
+        root = root.attr("binding", "late");
     }
     if let Some(i) = &doc.initial {
-        a.push_str(&format!(" initial=\"{}\"", i.join(" ")));
+        root = root.attr("initial", &i.join(" "));
     }
-    o.line(0, &format!("<scxml{}>", a));
-    render_data(&mut o, 1, &doc.data);
+    if let Some(d) = b.data(&doc.data) {
+        root = root.child(d);
+    }
+    if let Some(s) = script {
+        let mut e = El::new("script");
+        e.children.push(Node::Text(s.clone()));
+        root = root.child(e);
+    }
     for s in &doc.states {
-        render_state(&mut o, 1, s);
+        let x = b.state(s);
+        root = root.child(x);
     }
-    o.line(0, "</scxml>");
-    o.s
+    root
+}
+
+/// Lexical choices of the serialisation (all driven by a tape; a zero tape = canonical form).
+pub struct Lexical<'a, 'b> {
+    pub tape: Option<&'a mut Tape<'b>>,
+    pub prefix: Option<String>,
+    pub variation_kinds: std::collections::BTreeSet<&'static str>,
+    /// files written for XInclude: (file name, content)
+    pub includes: Vec<(String, String)>,
+    pub include_pct: u32,
+}
+
+impl<'a, 'b> Lexical<'a, 'b> {
+    pub fn canonical() -> Lexical<'static, 'static> {
+        Lexical { tape: None, prefix: None, variation_kinds: Default::default(), includes: vec![], include_pct: 0 }
+    }
+    pub fn from_tape(t: &'a mut Tape<'b>) -> Lexical<'a, 'b> {
+        let prefix = if t.chance(30) { Some("sc".to_string()) } else { None };
+        let include_pct = if t.chance(40) { 12 } else { 0 };
+        let mut l = Lexical { tape: Some(t), prefix, variation_kinds: Default::default(), includes: vec![], include_pct };
+        if l.prefix.is_some() {
+            l.variation_kinds.insert("namespace_prefix");
+        }
+        l
+    }
+    fn below(&mut self, n: usize) -> usize {
+        match &mut self.tape {
+            Some(t) => t.below(n),
+            None => 0,
+        }
+    }
+    fn chance(&mut self, p: u32) -> bool {
+        match &mut self.tape {
+            Some(t) => t.chance(p),
+            None => false,
+        }
+    }
+    fn ws(&mut self, ind: usize) -> String {
+        if self.tape.is_none() {
+            return format!("\n{}", "  ".repeat(ind));
+        }
+        match self.below(7) {
+            0 | 1 => format!("\n{}", "  ".repeat(ind)),
+            2 => {
+                self.variation_kinds.insert("whitespace");
+                String::new()
+            }
+            3 => {
+                self.variation_kinds.insert("whitespace");
+                " ".into()
+            }
+            4 => {
+                self.variation_kinds.insert("whitespace");
+                "\n\n\t".into()
+            }
+            5 => {
+                self.variation_kinds.insert("comment");
+                format!("\n{}<!-- c{} <x a='1'> -->", "  ".repeat(ind), ind)
+            }
+            _ => {
+                self.variation_kinds.insert("whitespace");
+                "\r\n ".into()
+            }
+        }
+    }
+    fn attr_value(&mut self, v: &str) -> String {
+        // quote choice and escapes
+        let dq = self.tape.is_none() || !self.chance(35);
+        if !dq {
+            self.variation_kinds.insert("single_quotes");
+        }
+        let mut o = String::new();
+        o.push(if dq { '"' } else { '\'' });
+        for c in v.chars() {
+            let charref = self.tape.is_some() && (c.is_alphanumeric() || c == ' ') && self.chance(4);
+            match c {
+                '&' => o.push_str("&amp;"),
+                '<' => o.push_str("&lt;"),
+                '>' => {
+                    if self.chance(50) {
+                        o.push('>');
+                    } else {
+                        o.push_str("&gt;");
+                    }
+                }
+                '"' if dq => o.push_str("&quot;"),
+                '\'' if !dq => o.push_str("&apos;"),
+                '"' | '\'' => {
+                    if self.chance(30) {
+                        self.variation_kinds.insert("entity_reference");
+                        o.push_str(if c == '"' { "&quot;" } else { "&apos;" });
+                    } else {
+                        o.push(c);
+                    }
+                }
+                c if charref => {
+                    self.variation_kinds.insert("character_reference");
+                    if self.chance(50) {
+                        o.push_str(&format!("&#x{:x};", c as u32));
+                    } else {
+                        o.push_str(&format!("&#{};", c as u32));
+                    }
+                }
+                c => o.push(c),
+            }
+        }
+        o.push(if dq { '"' } else { '\'' });
+        o
+    }
+    fn text(&mut self, t: &str) -> String {
+        // element text: entity escapes, or a CDATA section
+        if self.tape.is_some() && !t.contains("]]>") && self.chance(20) {
+            self.variation_kinds.insert("cdata");
+            return format!("<![CDATA[{}]]>", t);
+        }
+        let mut o = String::new();
+        for c in t.chars() {
+            match c {
+                '&' => o.push_str("&amp;"),
+                '<' => o.push_str("&lt;"),
+                '>' => o.push_str("&gt;"),
+                c => o.push(c),
+            }
+        }
+        o
+    }
+    fn qname(&self, n: &str) -> String {
+        match &self.prefix {
+            Some(p) => format!("{}:{}", p, n),
+            None => n.to_string(),
+        }
+    }
+}
+
+pub fn serialise(root: &El, lex: &mut Lexical) -> String {
+    let mut out = String::new();
+    if lex.chance(50) {
+        out.push_str("<?xml version=\"1.0\" encoding=\"UTF-8\"?>");
+    }
+    ser_el(root, lex, 0, true, &mut out);
+    out.push('\n');
+    out
+}
+
+fn ser_el(e: &El, lex: &mut Lexical, ind: usize, is_root: bool, out: &mut String) {
+    out.push_str(&lex.ws(ind));
+    // XInclude: move this state subtree into a text fragment
+    if !is_root && lex.include_pct > 0 && matches!(e.name.as_str(), "state" | "parallel" | "final") && lex.chance(lex.include_pct) {
+        let mut frag = String::new();
+        let saved = lex.include_pct;
+        lex.include_pct = 0; // no nested includes (fragments are resolved relative to the including file)
+        ser_el(e, lex, 0, false, &mut frag);
+        lex.include_pct = saved;
+        let fname = format!("frag{}.xml", lex.includes.len());
+        lex.includes.push((fname.clone(), frag));
+        lex.variation_kinds.insert("xinclude");
+        out.push_str(&format!("<xi:include xmlns:xi=\"http://www.w3.org/2001/XInclude\" href=\"{}\" parse=\"text\"/>", fname));
+        return;
+    }
+    let mut attrs = e.attrs.clone();
+    if is_root {
+        if let Some(p) = lex.prefix.clone() {
+            for a in attrs.iter_mut() {
+                if a.0 == "xmlns" {
+                    a.0 = format!("xmlns:{}", p);
+                }
+            }
+        }
+    }
+    // attribute order
+    if attrs.len() > 1 && lex.chance(40) {
+        lex.variation_kinds.insert("attribute_order");
+        let k = lex.below(attrs.len());
+        attrs.rotate_left(k);
+        if lex.chance(50) {
+            attrs.reverse();
+        }
+    }
+    out.push('<');
+    out.push_str(&lex.qname(&e.name));
+    for (k, v) in &attrs {
+        let sep = if lex.tape.is_some() && lex.chance(15) { "\n   " } else { " " };
+        out.push_str(sep);
+        out.push_str(k);
+        out.push('=');
+        out.push_str(&lex.attr_value(v));
+    }
+    if e.children.is_empty() {
+        if lex.tape.is_some() && lex.chance(35) {
+            lex.variation_kinds.insert("start_end_tag_for_empty_element");
+            out.push_str(&format!("></{}>", lex.qname(&e.name)));
+        } else {
+            out.push_str("/>");
+        }
+        return;
+    }
+    out.push('>');
+    let only_text = e.children.iter().all(|c| matches!(c, Node::Text(_)));
+    for c in &e.children {
+        match c {
+            Node::El(x) => ser_el(x, lex, ind + 1, false, out),
+            Node::Text(t) => {
+                let s = lex.text(t);
+                out.push_str(&s);
+            }
+        }
+    }
+    if !only_text {
+        out.push_str(&lex.ws(ind));
+    }
+    out.push_str(&format!("</{}>", lex.qname(&e.name)));
+}
+
+/// Canonical rendering (what the engine checks run).
+pub fn render_doc(doc: &Doc) -> String {
+    let tree = doc_to_tree(doc, &Structural::default(), &None);
+    serialise(&tree, &mut Lexical::canonical())
 }
